@@ -105,6 +105,11 @@ func (c *char) e4Listener(e event.AttackEnd) {
 		}
 	}
 
+	// nobody among the targets is weak to wind
+	if len(toPickFrom) == 0 {
+		return
+	}
+
 	target := toPickFrom[c.engine.Rand().Intn(len(toPickFrom))]
 
 	// Follow-up Attack
